@@ -75,6 +75,17 @@ def render(entries):
     out.append(";\n".join(qs))
     out.append("].")
     out.append("")
+    K = 0
+    for d in entries:
+        f = Fraction(d)
+        while (10 ** K) % f.denominator != 0:
+            K += 1
+    out.append("(* the same values as integers over the common denominator 10^%d *)" % K)
+    out.append("Definition ee_scale : Z := %d%%Z." % (10 ** K))
+    out.append("Definition ee_table_z : list Z := [")
+    out.append(";\n".join("  %d%%Z" % (Fraction(d) * 10 ** K) for d in entries))
+    out.append("].")
+    out.append("")
     out.append("Definition ee_table_f : list float := [")
     fs = []
     for d in entries:
@@ -85,9 +96,45 @@ def render(entries):
     return "\n".join(out)
 
 
+SHARDS = 8
+
+
+def render_acc(entries):
+    """one lemma per entry, proved by the interval tactic; sharded for a parallel build"""
+    files = {}
+    per = (len(entries) + SHARDS - 1) // SHARDS
+    for sh in range(SHARDS):
+        out = ["(* GENERATED from src/cutadapt/expected_errors.h by translate/eetable.py -- do not edit *)",
+               "From Coq Require Import Reals QArith Qreals.",
+               "From Interval Require Import Tactic.",
+               "From CV Require Import Spec.EEBound.",
+               "Open Scope R_scope.", ""]
+        for k in range(sh * per, min(len(entries), (sh + 1) * per)):
+            f = Fraction(entries[k])
+            out.append("Lemma ee_acc_%d : ee_bound %d (%d # %d)%%Q." % (k, k, f.numerator, f.denominator))
+            out.append("Proof. unfold ee_bound, pow10neg, Q2R; cbn [Qnum Qden]. interval with (i_prec 80). Qed.")
+        out.append("")
+        files["EEAcc%d.v" % sh] = "\n".join(out)
+    out = ["(* GENERATED from src/cutadapt/expected_errors.h by translate/eetable.py -- do not edit *)",
+           "From Coq Require Import ZArith Reals QArith Qreals List.",
+           "From CV Require Import Spec.EEBound Generated.EETable " + " ".join("Generated.EEAcc%d" % i for i in range(SHARDS)) + ".",
+           "Import ListNotations.", "",
+           "Definition ee_indices : list Z := [" + "; ".join(str(k) for k in range(len(entries))) + "]%Z.", "",
+           "Lemma ee_acc_all : Forall2 ee_bound ee_indices ee_table_q.",
+           "Proof.", "  unfold ee_indices, ee_table_q."]
+    for k in range(len(entries)):
+        out.append("  apply Forall2_cons; [exact ee_acc_%d|]." % k)
+    out += ["  apply Forall2_nil.", "Qed.", ""]
+    files["EEAccAll.v"] = "\n".join(out)
+    return files
+
+
 def generate():
     entries = parse(src("src/cutadapt/expected_errors.h"))
-    return write_if_changed("EETable.v", render(entries))
+    ch = write_if_changed("EETable.v", render(entries))
+    for name, text in render_acc(entries).items():
+        ch = write_if_changed(name, text) or ch
+    return ch
 
 
 if __name__ == "__main__":
